@@ -1,5 +1,6 @@
 // vh: correspondence harness. Usage:
-//   vh run <prop> --tier quick|thorough --seed N --driver PATH --out result.json [--replay file]
+//
+//	vh run <prop> --tier quick|thorough --seed N --driver PATH --out result.json [--replay file]
 package main
 
 import (
@@ -30,6 +31,8 @@ func main() {
 		props.SrvChild(os.Args[2:])
 	case "syncchild":
 		props.SyncChild(os.Args[2:])
+	case "syncclichild":
+		props.SyncCLIChild(os.Args[2:])
 	case "srvrealchild":
 		props.SrvRealChild(os.Args[2:])
 	case "mksyncchild":
